@@ -294,7 +294,7 @@ def run(rep, tier, seed, opts):
                   "pfaffian": "generic real skew matrices n = 2, 3, 4; 4x4 / 6x6 with structural zeros",
                   "outside": "torontonian, loop torontonian, jax_perm, float32 instantiations; the prebuilt extension modules cannot be rebuilt here (claims are about the C++ source); "
                              "the subset enumeration / repeated-edge compression drivers of plain_hafnian.py and loop_hafnian.py, loop corrections, float32 overloads, strided inputs"}
-    o = {"timeout_s": 60 if tier == "quick" else 300, "instance_timeout_s": 900, "seed": seed, "validation_points": 2, "path_budget": 400, "som_blowup": True}
+    o = {"timeout_s": 180 if tier == "quick" else 400, "instance_timeout_s": 1200, "seed": seed, "validation_points": 2, "path_budget": 400, "som_blowup": True}
     for r in core.run_instances(__name__, inst, o, jobs=opts.get("jobs")):
         rep.add_instance_result(__name__, r)
     return rep.finish(level="other", explanation=EXPLANATION)
